@@ -199,6 +199,14 @@ func (s *session[H]) doRequest(
 	}
 
 	h, err := s.processResponses(r)
+	if err == nil && h[0].Height() != req.GetOrigin() {
+		// headers within the response are verified to be adjacent to each other,
+		// so binding the first one to the requested origin binds the whole range
+		err = fmt.Errorf(
+			"header/p2p: received range starts at height %d instead of the requested %d",
+			h[0].Height(), req.GetOrigin(),
+		)
+	}
 	if err != nil {
 		span.SetStatus(codes.Error, err.Error())
 		logFn := log.Errorw
